@@ -16,7 +16,9 @@ def sessions(ctx):
                                                       init={'show': True, 'hasf': True, 'hasb': False,
                                                             'f': {'k': 'pat', 'form': 'bare', 'conn': {'k': 'any'},
                                                                   'obj': {'k': 'type', 't': {'k': 'w', 'p': list('wl_callback')}}}}):
-            for rd in RENDERS:
+            first = next((e['in']['t'] for e in tr['events'] if e['in']['e'] == 'msg'), 0)
+            # ... and once so that the first time stamp of the log is exactly 0.000
+            for rd in RENDERS + [{'dialect': 'old', 'mark': '.', 'offset': -first}, {'dialect': 'new', 'offset': -first}]:
                 yield copy.deepcopy(tr), dict(rd), lab
         for k in range(ctx.pick(100, 1000)):
             g = gen.SessionGen(ctx.seed * 982451653 + k, nconn=(1, 2), nmsg=(12, 40), junk=0.05, cmds=0.2, core=True,
